@@ -67,7 +67,7 @@ idx_t dtw_best_path{{suffix}}{{suffix2}}(seq_t *wps, idx_t *i1, idx_t *i2, idx_t
     {%- if ("affinity" in suffix) or ("customstart" in suffix) %}
     wpsi = dtw_wps_loc(&p, rs, cs, l1, l2) - ri_width;
     {%- else %}
-    min_ci = p.ri3 + 1 - p.window - p.ldiff;
+    min_ci = p.ri3 + 1 - p.window - p.ldiffr;
     wpsi_start = 2;
     if (p.ri2 == p.ri3) {
         wpsi_start = min_ci + 1;
